@@ -64,6 +64,23 @@ fn any_state<'a, S: Src>(s: &mut S, orig: &'a str) -> (Ctx<'a>, Parser<'a>) {
     (Ctx { ob, base }, p)
 }
 
+/// a state whose `yielded_last_split` flag is set.  The flag is only ever set together with an empty
+/// remainder and is never cleared, so every such reachable state is "empty remainder at some char
+/// boundary x, flag set"; one `split` on an empty parser at x produces exactly that.
+fn exhausted_at<'a, S: Src>(s: &mut S, c: &Ctx<'a>) -> Parser<'a> {
+    let x = s.upto(c.ob.len());
+    s.assume(ref_boundary(c.ob, x));
+    let e = Parser::with_start_offset(sub_str(c.ob, x, x), c.base + x);
+    let q = match if s.bool() { e.split('x') } else { e.rsplit('x') } {
+        Ok((_, q)) => q,
+        Err(_) => e,
+    };
+    // inductive hypothesis for that state (`split`/`rsplit` are checked as operations under test in c13_split_*)
+    let hyp = inv_slice(c, q) && inv_bound(c, q);
+    s.assume(hyp);
+    q
+}
+
 fn drop_piece<'a>(r: Result<(&'a str, Parser<'a>), ParseError<'a>>) -> Result<Parser<'a>, ParseError<'a>> {
     match r {
         Ok((_, p)) => Ok(p),
@@ -367,142 +384,236 @@ harness! {
 }
 
 harness! {
-    /// kind=bounded tier=quick bound="orig: valid UTF-8 string<=5 bytes, parser over every sub-slice on char boundaries; pattern: any char or valid UTF-8 &str<=2 bytes; base any u32 with base+len<=u32::MAX"
-    #[kani::unwind(9)]
+    /// kind=bounded tier=quick bound="orig: valid UTF-8 string<=4 bytes, parser over every sub-slice on char boundaries; pattern: any char; base any u32 with base+len<=u32::MAX"
+    #[kani::unwind(7)]
     #[kani::stub(konst_kernel::string::non_char_boundary_panic, crate::hlib::stub_non_char_boundary_panic)]
-    fn c13_trim_matches_two_sided(s) {
-        let bs = BStr::<5>::any(s);
+    fn c13_trim_matches_two_sided_char(s) {
+        let bs = BStr::<4>::any(s);
         let orig = bs.as_str();
         let (c1, p) = any_state(s, orig);
         let c = &c1;
-        let ch = s.char();
-        let ps = BStr::<2>::any(s);
-        let r = if s.bool() { p.trim_matches(ch) } else { p.trim_matches(ps.as_str()) };
+        let pat = s.char();
+        let r = p.trim_matches(pat);
         chk!(s, inv_slice(c, r), "C13.trim_matches.remainder_is_orig_slice_at_offsets");
         chk!(s, inv_bound(c, r), "C13.trim_matches.offsets_on_char_boundaries");
-        cov!(s, r.remainder().len() == 1 && p.remainder().len() == 3 && r.remainder().as_ptr() != p.remainder().as_ptr(), "C13.cover.trim_matches_both_sides");
+        cov!(s, r.remainder().len() == 1 && p.remainder().len() == 3 && r.remainder().as_ptr() != p.remainder().as_ptr(), "C13.cover.trim_matches_both_sides_char");
     }
 }
 
 harness! {
-    /// kind=bounded tier=quick bound="orig: valid UTF-8 string<=5 bytes, parser over every sub-slice on char boundaries; pattern: any char or valid UTF-8 &str<=2 bytes; base any u32 with base+len<=u32::MAX"
-    #[kani::unwind(9)]
+    /// kind=bounded tier=quick bound="orig: valid UTF-8 string<=4 bytes, parser over every sub-slice on char boundaries; pattern: any valid UTF-8 &str<=2 bytes; base any u32 with base+len<=u32::MAX"
+    #[kani::unwind(7)]
     #[kani::stub(konst_kernel::string::non_char_boundary_panic, crate::hlib::stub_non_char_boundary_panic)]
-    fn c13_trim_matches_one_sided(s) {
-        let bs = BStr::<5>::any(s);
-        let orig = bs.as_str();
-        let (c1, p) = any_state(s, orig);
-        let c = &c1;
-        let which = s.upto(1);
-        let ch = s.char();
-        let ps = BStr::<2>::any(s);
-        let use_char = s.bool();
-        let r = if use_char { fam_trim_matches_one_sided(s, c, p, which, ch) } else { fam_trim_matches_one_sided(s, c, p, which, ps.as_str()) };
-        cov!(s, match r { Some(q) => q.start_offset() > p.start_offset() && q.remainder().len() > 0, None => false }, "C13.cover.trim_start_matches_moved");
-        cov!(s, match r { Some(q) => q.end_offset() < p.end_offset() && q.remainder().len() > 0 && c.base > 0, None => false }, "C13.cover.trim_end_matches_cut");
-    }
-}
-
-harness! {
-    /// kind=bounded tier=quick bound="orig: valid UTF-8 string<=5 bytes, parser over every sub-slice on char boundaries; pattern: any char or valid UTF-8 &str<=2 bytes; base any u32 with base+len<=u32::MAX"
-    #[kani::unwind(9)]
-    #[kani::stub(konst_kernel::string::non_char_boundary_panic, crate::hlib::stub_non_char_boundary_panic)]
-    fn c13_strip(s) {
-        let bs = BStr::<5>::any(s);
-        let orig = bs.as_str();
-        let (c1, p) = any_state(s, orig);
-        let c = &c1;
-        let which = s.upto(1);
-        let ch = s.char();
-        let ps = BStr::<2>::any(s);
-        let use_char = s.bool();
-        let r = if use_char { fam_strip(s, c, p, which, ch) } else { fam_strip(s, c, p, which, ps.as_str()) };
-        cov!(s, match r { Some(q) => q.start_offset() > p.start_offset() && q.remainder().len() > 0, None => false }, "C13.cover.strip_prefix_moved");
-        cov!(s, match r { Some(q) => q.end_offset() < p.end_offset() && q.remainder().len() > 0 && c.base > 0, None => false }, "C13.cover.strip_suffix_cut");
-        cov!(s, r.is_none() && which == 1 && c.base > 0 && p.remainder().len() > 0 && p.end_offset() < c.base + c.ob.len(), "C13.cover.strip_suffix_error_inside_with_base");
-        cov!(s, r.is_none() && which == 0 && p.start_offset() > c.base, "C13.cover.strip_prefix_error_inside");
-    }
-}
-
-harness! {
-    /// kind=bounded tier=quick bound="orig: valid UTF-8 string<=5 bytes, parser over every sub-slice on char boundaries; pattern: any char or valid UTF-8 &str<=2 bytes; base any u32 with base+len<=u32::MAX"
-    #[kani::unwind(9)]
-    #[kani::stub(konst_kernel::string::non_char_boundary_panic, crate::hlib::stub_non_char_boundary_panic)]
-    fn c13_find_skip(s) {
-        let bs = BStr::<5>::any(s);
-        let orig = bs.as_str();
-        let (c1, p) = any_state(s, orig);
-        let c = &c1;
-        let which = s.upto(1);
-        let ch = s.char();
-        let ps = BStr::<2>::any(s);
-        let use_char = s.bool();
-        let r = if use_char { fam_find_skip(s, c, p, which, ch) } else { fam_find_skip(s, c, p, which, ps.as_str()) };
-        cov!(s, match r { Some(q) => q.start_offset() > p.start_offset() && q.remainder().len() > 0, None => false }, "C13.cover.find_skip_moved");
-        cov!(s, match r { Some(q) => q.end_offset() < p.end_offset() && q.remainder().len() > 0 && c.base > 0, None => false }, "C13.cover.rfind_skip_cut");
-        cov!(s, r.is_none() && which == 1 && c.base > 0 && p.remainder().len() > 0 && p.end_offset() < c.base + c.ob.len(), "C13.cover.rfind_skip_error_inside_with_base");
-        cov!(s, r.is_none() && which == 0 && p.start_offset() > c.base, "C13.cover.find_skip_error_inside");
-    }
-}
-
-harness! {
-    /// kind=bounded tier=quick bound="orig: valid UTF-8 string<=4 bytes, parser over every sub-slice on char boundaries, optionally after one split-family operation with a char delimiter; pattern: any char or valid UTF-8 &str<=2 bytes; base any u32 with base+len<=u32::MAX"
-    #[kani::unwind(8)]
-    #[kani::stub(konst_kernel::string::non_char_boundary_panic, crate::hlib::stub_non_char_boundary_panic)]
-    fn c13_split(s) {
+    fn c13_trim_matches_two_sided_str(s) {
         let bs = BStr::<4>::any(s);
         let orig = bs.as_str();
         let (c1, p) = any_state(s, orig);
         let c = &c1;
-        let ch0 = s.char();
-        let p = match s.upto(2) {
-            0 => p,
-            1 => match p.split(ch0) { Ok((_, q)) => q, Err(_) => p },
-            _ => match p.rsplit(ch0) { Ok((_, q)) => q, Err(_) => p },
-        };
-        // inductive hypothesis for the state reached by the first operation (checked below as `which`)
-        let hyp = inv_slice(c, p) && inv_bound(c, p);
-        s.assume(hyp);
+        let ps = BStr::<2>::any(s);
+        let pat = ps.as_str();
+        let r = p.trim_matches(pat);
+        chk!(s, inv_slice(c, r), "C13.trim_matches.remainder_is_orig_slice_at_offsets");
+        chk!(s, inv_bound(c, r), "C13.trim_matches.offsets_on_char_boundaries");
+        cov!(s, r.remainder().len() == 1 && p.remainder().len() == 3 && r.remainder().as_ptr() != p.remainder().as_ptr(), "C13.cover.trim_matches_both_sides_str");
+    }
+}
+
+harness! {
+    /// kind=bounded tier=quick bound="orig: valid UTF-8 string<=4 bytes, parser over every sub-slice on char boundaries; pattern: any char; base any u32 with base+len<=u32::MAX"
+    #[kani::unwind(7)]
+    #[kani::stub(konst_kernel::string::non_char_boundary_panic, crate::hlib::stub_non_char_boundary_panic)]
+    fn c13_trim_matches_one_sided_char(s) {
+        let bs = BStr::<4>::any(s);
+        let orig = bs.as_str();
+        let (c1, p) = any_state(s, orig);
+        let c = &c1;
+        let which = s.upto(1);
+        let pat = s.char();
+        let r = fam_trim_matches_one_sided(s, c, p, which, pat);
+        cov!(s, match r { Some(q) => q.start_offset() > p.start_offset() && q.remainder().len() > 0, None => false }, "C13.cover.trim_start_matches_moved_char");
+        cov!(s, match r { Some(q) => q.end_offset() < p.end_offset() && q.remainder().len() > 0 && c.base > 0, None => false }, "C13.cover.trim_end_matches_cut_char");
+    }
+}
+
+harness! {
+    /// kind=bounded tier=quick bound="orig: valid UTF-8 string<=4 bytes, parser over every sub-slice on char boundaries; pattern: any valid UTF-8 &str<=2 bytes; base any u32 with base+len<=u32::MAX"
+    #[kani::unwind(7)]
+    #[kani::stub(konst_kernel::string::non_char_boundary_panic, crate::hlib::stub_non_char_boundary_panic)]
+    fn c13_trim_matches_one_sided_str(s) {
+        let bs = BStr::<4>::any(s);
+        let orig = bs.as_str();
+        let (c1, p) = any_state(s, orig);
+        let c = &c1;
+        let which = s.upto(1);
+        let ps = BStr::<2>::any(s);
+        let pat = ps.as_str();
+        let r = fam_trim_matches_one_sided(s, c, p, which, pat);
+        cov!(s, match r { Some(q) => q.start_offset() > p.start_offset() && q.remainder().len() > 0, None => false }, "C13.cover.trim_start_matches_moved_str");
+        cov!(s, match r { Some(q) => q.end_offset() < p.end_offset() && q.remainder().len() > 0 && c.base > 0, None => false }, "C13.cover.trim_end_matches_cut_str");
+    }
+}
+
+harness! {
+    /// kind=bounded tier=quick bound="orig: valid UTF-8 string<=5 bytes, parser over every sub-slice on char boundaries; pattern: any char; base any u32 with base+len<=u32::MAX"
+    #[kani::unwind(9)]
+    #[kani::stub(konst_kernel::string::non_char_boundary_panic, crate::hlib::stub_non_char_boundary_panic)]
+    fn c13_strip_char(s) {
+        let bs = BStr::<5>::any(s);
+        let orig = bs.as_str();
+        let (c1, p) = any_state(s, orig);
+        let c = &c1;
+        let which = s.upto(1);
+        let pat = s.char();
+        let r = fam_strip(s, c, p, which, pat);
+        cov!(s, match r { Some(q) => q.start_offset() > p.start_offset() && q.remainder().len() > 0, None => false }, "C13.cover.strip_prefix_moved_char");
+        cov!(s, match r { Some(q) => q.end_offset() < p.end_offset() && q.remainder().len() > 0 && c.base > 0, None => false }, "C13.cover.strip_suffix_cut_char");
+        cov!(s, r.is_none() && which == 1 && c.base > 0 && p.remainder().len() > 0 && p.end_offset() < c.base + c.ob.len(), "C13.cover.strip_suffix_error_inside_with_base_char");
+        cov!(s, r.is_none() && which == 0 && p.start_offset() > c.base, "C13.cover.strip_prefix_error_inside_char");
+    }
+}
+
+harness! {
+    /// kind=bounded tier=quick bound="orig: valid UTF-8 string<=5 bytes, parser over every sub-slice on char boundaries; pattern: any valid UTF-8 &str<=2 bytes; base any u32 with base+len<=u32::MAX"
+    #[kani::unwind(9)]
+    #[kani::stub(konst_kernel::string::non_char_boundary_panic, crate::hlib::stub_non_char_boundary_panic)]
+    fn c13_strip_str(s) {
+        let bs = BStr::<5>::any(s);
+        let orig = bs.as_str();
+        let (c1, p) = any_state(s, orig);
+        let c = &c1;
+        let which = s.upto(1);
+        let ps = BStr::<2>::any(s);
+        let pat = ps.as_str();
+        let r = fam_strip(s, c, p, which, pat);
+        cov!(s, match r { Some(q) => q.start_offset() > p.start_offset() && q.remainder().len() > 0, None => false }, "C13.cover.strip_prefix_moved_str");
+        cov!(s, match r { Some(q) => q.end_offset() < p.end_offset() && q.remainder().len() > 0 && c.base > 0, None => false }, "C13.cover.strip_suffix_cut_str");
+        cov!(s, r.is_none() && which == 1 && c.base > 0 && p.remainder().len() > 0 && p.end_offset() < c.base + c.ob.len(), "C13.cover.strip_suffix_error_inside_with_base_str");
+        cov!(s, r.is_none() && which == 0 && p.start_offset() > c.base, "C13.cover.strip_prefix_error_inside_str");
+    }
+}
+
+harness! {
+    /// kind=bounded tier=quick bound="orig: valid UTF-8 string<=4 bytes, parser over every sub-slice on char boundaries; pattern: any char; base any u32 with base+len<=u32::MAX"
+    #[kani::unwind(12)]
+    #[kani::stub(konst_kernel::string::non_char_boundary_panic, crate::hlib::stub_non_char_boundary_panic)]
+    fn c13_find_skip_char(s) {
+        let bs = BStr::<4>::any(s);
+        let orig = bs.as_str();
+        let (c1, p) = any_state(s, orig);
+        let c = &c1;
+        let which = s.upto(1);
+        let pat = s.char();
+        let r = fam_find_skip(s, c, p, which, pat);
+        cov!(s, match r { Some(q) => q.start_offset() > p.start_offset() && q.remainder().len() > 0, None => false }, "C13.cover.find_skip_moved_char");
+        cov!(s, match r { Some(q) => q.end_offset() < p.end_offset() && q.remainder().len() > 0 && c.base > 0, None => false }, "C13.cover.rfind_skip_cut_char");
+        cov!(s, r.is_none() && which == 1 && c.base > 0 && p.remainder().len() > 0 && p.end_offset() < c.base + c.ob.len(), "C13.cover.rfind_skip_error_inside_with_base_char");
+        cov!(s, r.is_none() && which == 0 && p.start_offset() > c.base, "C13.cover.find_skip_error_inside_char");
+    }
+}
+
+harness! {
+    /// kind=bounded tier=quick bound="orig: valid UTF-8 string<=5 bytes, parser over every sub-slice on char boundaries; pattern: any valid UTF-8 &str<=2 bytes; base any u32 with base+len<=u32::MAX"
+    #[kani::unwind(12)]
+    #[kani::stub(konst_kernel::string::non_char_boundary_panic, crate::hlib::stub_non_char_boundary_panic)]
+    fn c13_find_skip_str(s) {
+        let bs = BStr::<5>::any(s);
+        let orig = bs.as_str();
+        let (c1, p) = any_state(s, orig);
+        let c = &c1;
+        let which = s.upto(1);
+        let ps = BStr::<2>::any(s);
+        let pat = ps.as_str();
+        let r = fam_find_skip(s, c, p, which, pat);
+        cov!(s, match r { Some(q) => q.start_offset() > p.start_offset() && q.remainder().len() > 0, None => false }, "C13.cover.find_skip_moved_str");
+        cov!(s, match r { Some(q) => q.end_offset() < p.end_offset() && q.remainder().len() > 0 && c.base > 0, None => false }, "C13.cover.rfind_skip_cut_str");
+        cov!(s, r.is_none() && which == 1 && c.base > 0 && p.remainder().len() > 0 && p.end_offset() < c.base + c.ob.len(), "C13.cover.rfind_skip_error_inside_with_base_str");
+        cov!(s, r.is_none() && which == 0 && p.start_offset() > c.base, "C13.cover.find_skip_error_inside_str");
+    }
+}
+
+harness! {
+    /// kind=bounded tier=quick bound="orig: valid UTF-8 string<=4 bytes, parser over every sub-slice on char boundaries, or an exhausted split (flag set, empty remainder at any char boundary); pattern: any char; base any u32 with base+len<=u32::MAX"
+    #[kani::unwind(12)]
+    #[kani::stub(konst_kernel::string::non_char_boundary_panic, crate::hlib::stub_non_char_boundary_panic)]
+    fn c13_split_char(s) {
+        let bs = BStr::<4>::any(s);
+        let orig = bs.as_str();
+        let (c1, p) = any_state(s, orig);
+        let c = &c1;
+        let flagged = s.bool();
+        let p = if flagged { exhausted_at(s, c) } else { p };
         let which = s.upto(2);
-        let ch = s.char();
-        let ps = BStr::<2>::any(s);
-        let use_char = s.bool();
-        let r = if use_char { fam_split(s, c, p, which, ch) } else { fam_split(s, c, p, which, ps.as_str()) };
-        cov!(s, match r { Some(q) => q.start_offset() > p.start_offset() && q.remainder().len() > 0, None => false }, "C13.cover.split_moved");
-        cov!(s, match r { Some(q) => q.end_offset() < p.end_offset() && q.remainder().len() > 0 && c.base > 0, None => false }, "C13.cover.rsplit_cut");
-        cov!(s, r.is_none() && which == 0 && p.remainder().len() == 0 && p.start_offset() > c.base && c.base > 0, "C13.cover.split_exhausted_error");
-        cov!(s, r.is_none() && which == 1 && p.remainder().len() == 0 && c.base > 0 && p.end_offset() < c.base + c.ob.len(), "C13.cover.rsplit_exhausted_error_with_base");
+        let pat = s.char();
+        let r = fam_split(s, c, p, which, pat);
+        cov!(s, match r { Some(q) => q.start_offset() > p.start_offset() && q.remainder().len() > 0, None => false }, "C13.cover.split_moved_char");
+        cov!(s, match r { Some(q) => q.end_offset() < p.end_offset() && q.remainder().len() > 0 && c.base > 0, None => false }, "C13.cover.rsplit_cut_char");
+        cov!(s, r.is_none() && flagged && which == 0 && p.start_offset() > c.base && c.base > 0, "C13.cover.split_exhausted_error_char");
+        cov!(s, r.is_none() && flagged && which == 1 && c.base > 0 && p.end_offset() < c.base + c.ob.len(), "C13.cover.rsplit_exhausted_error_with_base_char");
     }
 }
 
 harness! {
-    /// kind=bounded tier=quick bound="orig: valid UTF-8 string<=4 bytes, parser over every sub-slice on char boundaries, optionally after one split-family operation with a char delimiter; pattern: any char or valid UTF-8 &str<=2 bytes; base any u32 with base+len<=u32::MAX"
-    #[kani::unwind(8)]
+    /// kind=bounded tier=quick bound="orig: valid UTF-8 string<=5 bytes, parser over every sub-slice on char boundaries, or an exhausted split (flag set, empty remainder at any char boundary); pattern: any valid UTF-8 &str<=2 bytes; base any u32 with base+len<=u32::MAX"
+    #[kani::unwind(12)]
     #[kani::stub(konst_kernel::string::non_char_boundary_panic, crate::hlib::stub_non_char_boundary_panic)]
-    fn c13_split_terminator(s) {
+    fn c13_split_str(s) {
+        let bs = BStr::<5>::any(s);
+        let orig = bs.as_str();
+        let (c1, p) = any_state(s, orig);
+        let c = &c1;
+        let flagged = s.bool();
+        let p = if flagged { exhausted_at(s, c) } else { p };
+        let which = s.upto(2);
+        let ps = BStr::<2>::any(s);
+        let pat = ps.as_str();
+        let r = fam_split(s, c, p, which, pat);
+        cov!(s, match r { Some(q) => q.start_offset() > p.start_offset() && q.remainder().len() > 0, None => false }, "C13.cover.split_moved_str");
+        cov!(s, match r { Some(q) => q.end_offset() < p.end_offset() && q.remainder().len() > 0 && c.base > 0, None => false }, "C13.cover.rsplit_cut_str");
+        cov!(s, r.is_none() && flagged && which == 0 && p.start_offset() > c.base && c.base > 0, "C13.cover.split_exhausted_error_str");
+        cov!(s, r.is_none() && flagged && which == 1 && c.base > 0 && p.end_offset() < c.base + c.ob.len(), "C13.cover.rsplit_exhausted_error_with_base_str");
+    }
+}
+
+harness! {
+    /// kind=bounded tier=quick bound="orig: valid UTF-8 string<=4 bytes, parser over every sub-slice on char boundaries, or an exhausted split (flag set, empty remainder at any char boundary); pattern: any char; base any u32 with base+len<=u32::MAX"
+    #[kani::unwind(12)]
+    #[kani::stub(konst_kernel::string::non_char_boundary_panic, crate::hlib::stub_non_char_boundary_panic)]
+    fn c13_split_terminator_char(s) {
         let bs = BStr::<4>::any(s);
         let orig = bs.as_str();
         let (c1, p) = any_state(s, orig);
         let c = &c1;
-        let ch0 = s.char();
-        let p = match s.upto(3) {
-            0 => p,
-            1 => match p.split_terminator(ch0) { Ok((_, q)) => q, Err(_) => p },
-            2 => match p.rsplit_terminator(ch0) { Ok((_, q)) => q, Err(_) => p },
-            _ => match p.split(ch0) { Ok((_, q)) => q, Err(_) => p },
-        };
-        // inductive hypothesis for the state reached by the first operation (checked below as `which`)
-        let hyp = inv_slice(c, p) && inv_bound(c, p);
-        s.assume(hyp);
+        let flagged = s.bool();
+        let p = if flagged { exhausted_at(s, c) } else { p };
         let which = s.upto(1);
-        let ch = s.char();
+        let pat = s.char();
+        let r = fam_split_terminator(s, c, p, which, pat);
+        cov!(s, match r { Some(q) => q.start_offset() > p.start_offset() && q.remainder().len() > 0, None => false }, "C13.cover.split_terminator_moved_char");
+        cov!(s, match r { Some(q) => q.end_offset() < p.end_offset() && q.remainder().len() > 0 && c.base > 0, None => false }, "C13.cover.rsplit_terminator_cut_char");
+        cov!(s, r.is_none() && which == 1 && c.base > 0 && p.remainder().len() > 0 && p.end_offset() < c.base + c.ob.len(), "C13.cover.rsplit_terminator_error_inside_with_base_char");
+        cov!(s, r.is_none() && flagged && which == 0 && p.start_offset() > c.base && c.base > 0, "C13.cover.split_terminator_exhausted_error_char");
+    }
+}
+
+harness! {
+    /// kind=bounded tier=quick bound="orig: valid UTF-8 string<=5 bytes, parser over every sub-slice on char boundaries, or an exhausted split (flag set, empty remainder at any char boundary); pattern: any valid UTF-8 &str<=2 bytes; base any u32 with base+len<=u32::MAX"
+    #[kani::unwind(12)]
+    #[kani::stub(konst_kernel::string::non_char_boundary_panic, crate::hlib::stub_non_char_boundary_panic)]
+    fn c13_split_terminator_str(s) {
+        let bs = BStr::<5>::any(s);
+        let orig = bs.as_str();
+        let (c1, p) = any_state(s, orig);
+        let c = &c1;
+        let flagged = s.bool();
+        let p = if flagged { exhausted_at(s, c) } else { p };
+        let which = s.upto(1);
         let ps = BStr::<2>::any(s);
-        let use_char = s.bool();
-        let r = if use_char { fam_split_terminator(s, c, p, which, ch) } else { fam_split_terminator(s, c, p, which, ps.as_str()) };
-        cov!(s, match r { Some(q) => q.start_offset() > p.start_offset() && q.remainder().len() > 0, None => false }, "C13.cover.split_terminator_moved");
-        cov!(s, match r { Some(q) => q.end_offset() < p.end_offset() && q.remainder().len() > 0 && c.base > 0, None => false }, "C13.cover.rsplit_terminator_cut");
-        cov!(s, r.is_none() && which == 1 && c.base > 0 && p.remainder().len() > 0 && p.end_offset() < c.base + c.ob.len(), "C13.cover.rsplit_terminator_error_inside_with_base");
-        cov!(s, r.is_none() && which == 0 && p.remainder().len() == 0 && p.start_offset() > c.base && c.base > 0, "C13.cover.split_terminator_exhausted_error");
+        let pat = ps.as_str();
+        let r = fam_split_terminator(s, c, p, which, pat);
+        cov!(s, match r { Some(q) => q.start_offset() > p.start_offset() && q.remainder().len() > 0, None => false }, "C13.cover.split_terminator_moved_str");
+        cov!(s, match r { Some(q) => q.end_offset() < p.end_offset() && q.remainder().len() > 0 && c.base > 0, None => false }, "C13.cover.rsplit_terminator_cut_str");
+        cov!(s, r.is_none() && which == 1 && c.base > 0 && p.remainder().len() > 0 && p.end_offset() < c.base + c.ob.len(), "C13.cover.rsplit_terminator_error_inside_with_base_str");
+        cov!(s, r.is_none() && flagged && which == 0 && p.start_offset() > c.base && c.base > 0, "C13.cover.split_terminator_exhausted_error_str");
     }
 }
 
